@@ -29,7 +29,7 @@ def handle (j : Json) : Json := run do
       if isFile (stripScheme it) then [stripScheme it]
       else
         let e := (anchored (stripScheme it)).1
-        (world it).filter fun f => globMatch e f || globMatch (partsPattern e) f
+        ((world it).filter fun f => globMatch e f || globMatch (partsPattern e) f).map (unanchor (stripScheme it))
     return Json.mkObj [("model", toJson (res.map String.ofList)), ("spec", toJson (spec.map String.ofList)),
       ("reader", toJson ((readerOrder res).map String.ofList))]
   | _ => throw "op"
